@@ -70,6 +70,11 @@ StmtConstructs == <<
   <<"continue_stmt", "repeat if a then continue end ext1() until true">>,
   <<"continue_stmt", "for k, v in ext1() do for i = 1, 2 do if c then continue end end if a then continue end end">>,
   <<"continue_stmt", "for i = 1, 2 do local g = function() for j = 1, 2 do continue end end continue end">>,
+  \* a closure in the HEADER of the loop whose body continues
+  <<"continue_stmt", "for k, v in ext1(function() end) do if c then continue end end">>,
+  <<"continue_stmt", "for i = 1, ext1(function() return 1 end) do if c then continue end end">>,
+  <<"continue_stmt", "while ext1(function() end) do c = nil if a then continue end break end">>,
+  <<"continue_stmt", "repeat if a then continue end until ext1(function() end)">>,
   <<"const_decl", "const kc = 1">>,
   <<"const_decl", "const k1, k2 = 1, 2">>,
   <<"const_decl", "const function cf() return 1 end">>,
@@ -108,6 +113,25 @@ Wrappers == <<
   <<"", " and 1 or 2">>, <<"", " // 2">>, <<"t:m(", ")">>, <<"ext1 { ", " }">>, <<"ext1(1, ", ", 2)">>, <<"{1, ", "; 2}">> >>
 
 Prelude == "local a, b, c, t = ext1(), ext1(), ext1(), extt()\n"
+\* ---- SIBLINGS: statements visited before (or after) the construct in the same block.  A rule keeps state while it walks
+\* (loop stacks, scopes, counters): what it met earlier must not change what it does with the construct.
+Siblings == <<
+  "ext1(function() end)", "t:m(function() return 1 end)", "ext1 { f = function() end }", "ext1(1, function(...) return ... end)",
+  "local q = function() end", "local function q() end", "function t.q() end", "function t:qq() end",
+  "for j = 1, 2 do end", "for kk in ext1() do end", "while false do end", "repeat until true", "do end", "if a then end",
+  "ext1(function() for j = 1, 2 do end end)", "ext1(function() return function() end end)", "a = {function() end, function() end}",
+  "ext1(t.k(function() end)(function() end))", "local q = (function() end)()" >>
+\* `continue` with the sibling INSIDE the loop, before the block that continues: <<before, after>>
+SibContinue == <<
+  <<"for i = 1, 2 do ", " if c then continue end ext1(i) end">>,
+  <<"while c do c = nil ", " do continue end end">>,
+  <<"repeat ", " if a then continue end until true">>,
+  <<"for i = 1, 2 do if a then ", " continue end end">>,
+  <<"for i = 1, 2 do if c then continue end ", " if a then continue end end">>,
+  <<"for k, v in ext1() do ", " if a then ext1() else continue end end">> >>
+SibPositions == {1, 8, 13}
+SibCase(p, sib, s, order) == Prelude \o p[1] \o (IF order = 1 THEN sib \o " " \o s ELSE s \o " " \o sib) \o p[2] \o "\n"
+SibContCase(p, sib, sc) == Prelude \o p[1] \o sc[1] \o sib \o sc[2] \o p[2] \o "\n"
 \* three levels: statement position [ expression position [ wrapper [ construct ] ] ]
 DeepCase(sp, p, w, e) == Prelude \o sp[1] \o p[1] \o w[1] \o e \o w[2] \o p[2] \o sp[2] \o "\n"
 \* positions that are complete statements usable inside every statement position (no `return`, which must end a block)
